@@ -1,5 +1,6 @@
 mod common;
 mod core_props;
+mod enum_props;
 mod gen;
 mod rng;
 mod space;
@@ -28,6 +29,7 @@ fn main() {
         "C03" => core_props::c03(&a),
         "C04" => core_props::c04(&a),
         "C05" => core_props::c05(&a),
+        "C06" => enum_props::c06(&a),
         other => { eprintln!("unknown property {other}"); std::process::exit(2); }
     }
 }
